@@ -217,7 +217,7 @@ def part_codec(ctx):
     p.samples = info["samples"]
 
     def bad(f, n, lst):
-        ids = [int(x) for x in re.findall(r"(\d+)%nat", lst)]
+        ids = [int(x) for x in re.findall(r"(\d+)%(?:nat|N)", lst)]
         if n == "vbad":
             ds = [info["duration_list"][i] for i in ids[:5]]
             p.violation("duration-roundtrip", "Interval.Value/Scan disagrees with the model or does not round-trip for durations %s" % ds,
